@@ -512,6 +512,14 @@ class DAGRunConcurrentManager(DAGRunManagerLike):
                 await self.__unlock_itself(dag.dest)
                 return None
 
+            if not dag.is_oneof:
+                # A dependency can have an error as its result only if it has been executed by a OneOf subgraph
+                # that shares the node. Outside of OneOf subgraphs it is the error of the whole DAG, not a value.
+                error = self.__get_dependency_error(dag, node_id)
+
+                if error is not None:
+                    await self.__raise_exc(error)
+
             if self._is_switch(node_id):
                 coro_to_run = self._run_switch(dag, node_id)
 
@@ -534,6 +542,17 @@ class DAGRunConcurrentManager(DAGRunManagerLike):
         )
 
         return self._node_storage.get_node_result(dag.dest, with_hidden=True)
+
+    def __get_dependency_error(self, dag: DiGraph, node_id: NodeId) -> t.Optional[BaseException]:
+        """
+        Get the error that is kept as the result of one of the node's dependencies
+        """
+
+        for pred_node_id in self._get_predecessors(dag, node_id):
+            if self._node_storage.exists_node_error(pred_node_id):
+                return self._node_storage.get_node_result(pred_node_id)
+
+        return None
 
     def __has_subgraph_error(self, dag: DiGraph) -> bool:
         """
